@@ -9,8 +9,8 @@ using namespace squids;
 static std::vector<double> comps(const SU_vector& v){ return v.GetComponents(); }
 static std::vector<long double> levels(int d,const std::vector<double>& h){ Mat M=toMat(d,h); std::vector<long double> r(d); for(int i=0;i<d;i++) r[i]=M[i][i].real(); return r; }
 static int pairs(int d){ return d*(d-1)/2; }
-// pair table: slot p <-> (j,k), j<k, in the order the generated code uses: (0,1),(0,2),(1,2),(0,3),(1,3),(2,3),...
-static void pair_of(int d,int p,int& j,int& k){ int q=0; for(int kk=1;kk<d;kk++) for(int jj=0;jj<kk;jj++){ if(q==p){ j=jj;k=kk;return; } q++; } j=k=-1; }
+// pair table: slot p <-> (j,k), j<k, row-major: (0,1),(0,2),..,(0,d-1),(1,2),...
+static void pair_of(int d,int p,int& j,int& k){ int q=0; for(int jj=0;jj<d;jj++) for(int kk=jj+1;kk<d;kk++){ if(q==p){ j=jj;k=kk;return; } q++; } j=k=-1; }
 int main(int argc,char** argv){
   Witness w(argv[1]);
   std::string fam=w.s("family"); int what=w.has("what")?w.l("what"):0, d=w.l("d"); unsigned seed=w.has("seed")?w.l("seed"):0;
@@ -59,6 +59,15 @@ int main(int argc,char** argv){
           err=std::max<long double>(err,std::abs(buf[p]-ec)); err=std::max<long double>(err,std::abs(buf[np+p]-es)); } }
       if(what==2||what==3){ // LowPassFilter on omega (2) / AvgRampFilter on omega*t (3)
         double cutoff=std::abs(U(g))*2+0.1, ramp=std::abs(U(g))*cutoff*0.5; if(rep==5) ramp=0;
+        if(rep==6||rep==7){ // boundary cases from the property's domain |ramp|<=|cutoff|: ramp=0 and a phase exactly on the cutoff
+          std::fill(h.begin(),h.end(),0.0); if(rep==7) h[d+1]=0.5; H=SU_vector(h); lv=levels(d,h); t=1.0; ramp=0; cutoff=(rep==7)?1.0:0.0;
+          H.PrepareEvolve(ref.data(),t);
+          buf=ref; if(what==2) H.LowPassFilter(buf.data(),cutoff,ramp); else H.AvgRampFilter(buf.data(),t,cutoff,ramp);
+          for(int p=0;p<np;p++){ int j,k; pair_of(d,p,j,k); long double x=std::abs((lv[j]-lv[k])*(what==2?1.0L:(long double)t));
+            long double f = x>cutoff?0: (x>cutoff-ramp? (cutoff-x)/ramp : 1);
+            if(!(std::isfinite(buf[p])&&std::isfinite(buf[np+p]))){ err=std::max<long double>(err,1); note="non-finite entry at the cutoff with zero ramp"; continue; }
+            err=std::max<long double>(err,std::abs(buf[p]-ref[p]*f)); err=std::max<long double>(err,std::abs(buf[np+p]-ref[np+p]*f)); }
+          continue; }
         buf=ref; if(what==2) H.LowPassFilter(buf.data(),cutoff,ramp); else H.AvgRampFilter(buf.data(),t,cutoff,ramp);
         for(int p=0;p<np;p++){ int j,k; pair_of(d,p,j,k); long double x=std::abs((lv[j]-lv[k])*(what==2?1.0L:(long double)t));
           long double f = x>cutoff?0: (x>cutoff-ramp? (cutoff-x)/ramp : 1);
